@@ -72,6 +72,19 @@ func VerifH20a() {
 		for k := 0; k < len(params); k++ {
 			vAssert("unspecified-type", params[k] == 0)
 		}
+		// the list belongs to the caller: filling in types (as a handler that
+		// knows them would) does not show in the result of a later call
+		for k := range params {
+			params[k] = 23
+		}
+		again := ParseParameters(string(q))
+		vAssert("second-call-same-length", len(again) == len(params))
+		for k := 0; k < len(again) && k < 4; k++ {
+			vAssert("second-call-unspecified-type", again[k] == 0)
+		}
+		if len(params) > 0 {
+			vReach("result-mutated-between-calls")
+		}
 	}
 }
 
